@@ -211,11 +211,14 @@ def run_item(item, tier):
         argv = ["archive"] + ([task] if task else []) + (["--latest"] if latest else []) + ["-o", arch]
         res["evals"] += 1
         res["transitions"] += 1
-        r = hist.run(root, argv, clock=driver.Clock(t + 1))
         want = ref_selection(rows0, task, latest)
+        r = hist.run(root, argv, clock=driver.Clock(t + 1))
         res["sigs"].add(explore.sig([item["history"], task, latest, stale]))
         if os.path.exists(os.path.join(root, "cond-out", "version_index_archive.sqlite")):
-            viol("archive:temp-index-left", "cond archive left its temporary index in cond-out", art)
+            if not (stale and not want):
+                # (a refused archive - nothing to archive - that never got as far as its own temporary index may leave the stale
+                # one of the killed archive where it is)
+                viol("archive:temp-index-left", "cond archive left its temporary index in cond-out", art)
             os.unlink(os.path.join(root, "cond-out", "version_index_archive.sqlite"))
         if r.exc is not None:
             viol("archive:internal-error", "cond %s dies with %s: %s" % (" ".join(argv[:-1]), type(r.exc).__name__, r.exc), art)
